@@ -503,3 +503,57 @@ Lemma nondegenerate_example : nondegenerate (Tri (V3 0 0 0) (V3 1 0 0) (V3 0 1 0
 Proof. unfold nondegenerate, tri_cross; cbn [ta tb tc]. vunf. intros H. injection H as _ _ H. lra. Qed.
 Lemma weights_example : nonneg_weights [0; 1; 0; 2] /\ 0 < Rsum [0; 1; 0; 2].
 Proof. split; [repeat constructor; lra|cbn; lra]. Qed.
+
+(* ---- frequency clause: the preimage of face i under the face draw is an interval of length w_i / T ------------ *)
+Lemma psum_nonneg ws i : nonneg_weights ws -> 0 <= psum ws i.
+Proof. intros H. unfold psum. apply Rsum_nonneg, nonneg_firstn, H. Qed.
+Lemma psum_le_total ws i : nonneg_weights ws -> psum ws i <= Rsum ws.
+Proof.
+  intros H. destruct (Nat.le_gt_cases i (length ws)) as [L|L].
+  - rewrite <- (psum_all ws (length ws)) by lia. apply psum_mono; assumption.
+  - rewrite psum_all by lia. lra.
+Qed.
+Lemma sample_face_preimage ws i w : nonneg_weights ws -> 0 < Rsum ws -> nth_error ws i = Some w ->
+  let T := Rsum ws in let a := psum ws i / T in let b := psum ws (S i) / T in
+  0 <= a /\ b <= 1 /\ b - a = w / T /\
+  (forall u, 0 <= u < 1 -> (face_choice ROps ws u = i <-> a <= u < b)) /\
+  (forall u1 u2, 0 <= u1 < 1 -> 0 <= u2 < 1 -> face_choice ROps ws u1 = i -> face_choice ROps ws u2 = i ->
+     Rabs (u1 - u2) < w / T).
+Proof.
+  intros Hw HT Hi. cbv zeta. set (T := Rsum ws) in *.
+  pose proof (psum_nonneg ws i Hw) as H0. pose proof (psum_le_total ws (S i) Hw) as H1. fold T in H1.
+  pose proof (psum_S ws i w Hi) as HS.
+  assert (Hlen : (i < length ws)%nat) by (apply nth_error_Some; congruence).
+  assert (Ea : psum ws i = psum ws i / T * T) by (field; lra).
+  assert (Eb : psum ws (S i) = psum ws (S i) / T * T) by (field; lra).
+  set (a := psum ws i / T) in *. set (b := psum ws (S i) / T) in *.
+  assert (A0 : 0 <= a) by (apply Rmult_le_reg_r with T; lra).
+  assert (B1 : b <= 1) by (apply Rmult_le_reg_r with T; lra).
+  assert (Eq : forall u, 0 <= u < 1 -> (face_choice ROps ws u = i <-> a <= u < b)).
+  { intros u Hu. rewrite (sample_face_interval ws u i Hw HT Hu). fold T. rewrite Ea, Eb. split.
+    - intros (_ & L & U). split; [apply Rmult_le_reg_r with T; lra|apply Rmult_lt_reg_r with T; lra].
+    - intros (L & U). split; [exact Hlen|]. split; [apply Rmult_le_compat_r; lra|apply Rmult_lt_compat_r; lra]. }
+  split; [exact A0|]. split; [exact B1|]. split; [unfold a, b; rewrite HS; field; lra|]. split; [exact Eq|].
+  intros u1 u2 Hu1 Hu2 F1 F2. apply Eq in F1; [|exact Hu1]. apply Eq in F2; [|exact Hu2].
+  replace (w / T) with (b - a) by (unfold a, b; rewrite HS; field; lra).
+  unfold Rabs. destruct (Rcase_abs (u1 - u2)); lra.
+Qed.
+
+(* ---- more glue for props/C15.v (every theorem there is closed by a bare `exact`) -------------------------------- *)
+Lemma contains_iff_weights_nonneg_coplanar t p : nondegenerate t -> coplanar t p ->
+  (tri_contains ROps (ta t) (tb t) (tc t) p = true <->
+   0 <= vx (bary ROps t p) /\ 0 <= vy (bary ROps t p) /\ 0 <= vz (bary ROps t p)).
+Proof. intros H _. exact (contains_iff_weights_nonneg t p H). Qed.
+Lemma sample_empty (weights : option (list R)) us abs : sample ROps [] weights us abs = Ok [].
+Proof. reflexivity. Qed.
+Lemma left_and_right_rule :
+  (face_choice_left ROps [0; 1] 0 = 0%nat /\ nth_error [0; 1] 0%nat = Some 0) /\ face_choice ROps [0; 1] 0 = 1%nat.
+Proof. exact (conj left_rule_picks_zero_weight_face right_rule_on_that_input). Qed.
+Lemma edges_each_once_all (nz : bool) fs :
+  length (edges_of_faces nz fs) = (3 * length fs)%nat /\
+  forall i f, nth_error fs i = Some f ->
+    let g := if nz then sort2 else (fun e : Z * Z => e) in
+    nth_error (edges_of_faces nz fs) (3 * i) = Some (g (f0 f, f1 f)) /\
+    nth_error (edges_of_faces nz fs) (3 * i + 1) = Some (g (f1 f, f2 f)) /\
+    nth_error (edges_of_faces nz fs) (3 * i + 2) = Some (g (f2 f, f0 f)).
+Proof. split; [apply edges_of_faces_length|]. intros i f H. exact (edges_each_once nz fs i f H). Qed.
